@@ -63,7 +63,8 @@ def make(c: dict):
         Xd[...] = 0
     elif np.count_nonzero(Xd) < 2:            # the all-zero tensor is exercised by explicit witness runs only
         Xd.reshape(-1)[[1, -1]] = [1.0, 2.0]
-    X = ttb.tensor(Xd)
+    # counts are naturally integers (numpy.random.poisson returns int64): the element type is a presentation
+    X = ttb.tensor(Xd.astype(np.int64)) if c.get("dtype") == "int" else ttb.tensor(Xd)
     if c["sparse"]:
         X = X.to_sptensor()
     r2 = np.random.RandomState(c["seed"] + 11)
@@ -194,7 +195,8 @@ def main(tier: str) -> int:
                                      "printitn": rr.choice([0, 1, 2]), "precompinds": rr.choice([True, False]),
                                      "inexact": rr.choice([True, False]), "lbfgs": rr.choice([1, 3, 5]),
                                      "empty_slice": rr.random() < 0.35, "zero_row": rr.random() < 0.25,
-                                     "warm": rr.random() < 0.3, "stoptime0": rr.random() < 0.15})
+                                     "warm": rr.random() < 0.3, "stoptime0": rr.random() < 0.15,
+                                     "dtype": rr.choice(["float", "int"])})
                         i += 1
     # warm, weighted starts with the tightest limits: one inner step from a guess that is already close to the optimum
     for alg in ("mu", "pdnr", "pqnr"):
@@ -202,7 +204,7 @@ def main(tier: str) -> int:
             for mi in (1, 2):
                 runs.append({"alg": alg, "shape": [4, 3, 3], "sparse": sp, "maxiters": mi, "maxinner": mi, "rank": 3, "seed": sd + mi,
                              "stoptol": 1e-4, "printitn": 0, "precompinds": True, "inexact": bool(mi % 2), "lbfgs": 3,
-                             "empty_slice": False, "zero_row": False, "warm": True})
+                             "empty_slice": False, "zero_row": False, "warm": True, "dtype": ("int" if mi == 1 else "float")})
     # witnesses of K-C11-sparse-all-zero-data (dense all-zero data is answered by mu and pdnr)
     for alg in ("mu", "pdnr", "pqnr"):
         for sp in (False, True):
